@@ -183,7 +183,18 @@ func Generate(r *rng.R) *Scenario {
 		prs := []gatewayv1.ParentReference{parentTo(g, ns, "")}
 		good := simpleRule(ns)
 		bad := simpleRule(ns)
-		switch r.Intn(5) {
+		switch r.Intn(6) {
+		case 4:
+			// the SnippetsFilter exists but is invalid (two snippets for one context): the reference does not resolve
+			sf := &ngfAPI.SnippetsFilter{ObjectMeta: p.Meta(ns, "sf-invalid", nextAge())}
+			sf.Spec.Snippets = []ngfAPI.Snippet{
+				{Context: ngfAPI.NginxContextHTTPServerLocation, Value: "add_header X-Sf a;"},
+				{Context: ngfAPI.NginxContextHTTPServerLocation, Value: "add_header X-Sf b;"},
+			}
+			s.Objs = append(s.Objs, sf)
+			bad.Filters = []gatewayv1.HTTPRouteFilter{{Type: gatewayv1.HTTPRouteFilterExtensionRef,
+				ExtensionRef: &gatewayv1.LocalObjectReference{Group: ngfAPI.GroupName, Kind: "SnippetsFilter", Name: "sf-invalid"}}}
+			s.tag("rule-invalid-snippetsfilter-extref")
 		case 0:
 			bad.Matches[0].Headers = []gatewayv1.HTTPHeaderMatch{{Type: ptr(gatewayv1.HeaderMatchRegularExpression), Name: "h", Value: "a.*"}}
 			s.tag("rule-invalid-match")
